@@ -361,7 +361,38 @@ def rule_narrowing(ctx):
     ctx.floor("R5", "narrowing integer conversions in the HTTP crate", n, 4)
 
 
+def rule_one_stream(ctx):
+    """R5: a message is assembled from the frames of ONE stream: wherever build_stream compares a frame's stream id with the stream it
+    assembles, the comparison is an equality (`==` / `!=`), never an ordering - frames of other streams do not leak into the message"""
+    P = ctx.program
+    b0 = P.method1(H2, "build_stream")
+    n = 0
+    bad = None
+    for b in L.with_closures(P, b0):
+        S = T.Slicer(b, P)
+        tests = []
+        for i, j, s in b.iter_stmts():
+            if s["k"] == "assign" and s["r"]["k"] == "binop" and s["r"]["op"] in ("Eq", "Ne", "Lt", "Le", "Gt", "Ge"):
+                t = S.rvalue(s["r"], i, j)
+                if b is not b0:
+                    t = T.expand_upvars(P, b, t, depth=4)
+                tests.append((i, t))
+        for i, t in tests:
+            sides = (t[2], t[3])
+            has_field = [any(x[0] == "field" and x[2] == "stream_id" for x in T.walk(y)) for y in sides]
+            has_param = [any(x[0] == "param" and x[2] == "stream_id" for x in T.walk(y)) for y in sides]
+            if (has_field[0] and has_param[1]) or (has_field[1] and has_param[0]):
+                n += 1
+                if t[1] not in ("Eq", "Ne"):
+                    bad = (b, i, t[1])
+    ctx.check(bad is None and n >= 1, "R5", "build_stream:one-stream", "frames are selected by stream id equality (%d tests)" % n,
+              "build_stream compares frame.stream_id with the assembled stream using `%s`: HEADERS / CONTINUATION frames of other streams in the same buffer are decoded "
+              "into this message (path, status, headers of a later stream replace the primary one)" % (bad[2] if bad else "no equality test"),
+              ctx.loc(bad[0], bad[1]) if bad else ctx.loc(b0))
+
+
 def run(ctx):
+    rule_one_stream(ctx)
     rule_narrowing(ctx)
     rule_first_separator(ctx)
     rule_direction_flags(ctx)
